@@ -105,4 +105,5 @@ def _setup(b, case):
     mod.ns['Machine'] = Builtin('Machine', lambda I_, a, k: Opaque('machine'))
     return {'t1': b.sym('str', 'text1'), 't2': b.sym('str', 'text2')}
 c.setup(_setup)
+c.crosscheck = False        # the setup replaces Parser and Machine inside the module: a native run would build the real ones
 c.ensures('each-job-keeps-the-program-of-its-own-text', 'result[0] is not result[1] and len(result[0]) == 1 and result[0][0] == t1 and len(result[1]) == 1 and result[1][0] == t2')
